@@ -25,8 +25,9 @@ class Ob:
     id: semantic name; term: z3 Bool that must hold for all values on the path;
     observe: name -> z3 term usable by known-finding `observed` predicates; note: free text for evidence."""
 
-    def __init__(self, id, term, observe=None, note=None):
+    def __init__(self, id, term, observe=None, note=None, tags=None):
         self.id, self.term, self.observe, self.note = id, term, observe or {}, note
+        self.tags = tags or {}  # plain facts about the path outcome; known findings may require them ("tags" subset match)
 
 
 class Harness:
@@ -118,6 +119,8 @@ class KnownFindings:
         hits = []
         for e in self.entries:
             if not fnmatch.fnmatchcase(ob.id, e["obligation"]):
+                continue
+            if any(ob.tags.get(k) != v for k, v in e.get("tags", {}).items()):
                 continue
             env = dict(REGION_ENV)
             env.update(vars)
